@@ -252,6 +252,20 @@ func Name(r *Rand) string {
 	return NameOfLen(r, NameLen(r))
 }
 
+// TwinNames returns a compressed stack counter name together with a second
+// counter name that is (or expands to) the first one's expansion.
+func TwinNames(r *Rand) []string {
+	switch r.Intn(3) {
+	case 0:
+		return []string{"p\nx.f:+1,+0x1\n\".g:+2,+0x2", "p\nx.f:+1,+0x1\nx.g:+2,+0x2"}
+	case 1:
+		k := r.Intn(1000)
+		return []string{fmt.Sprintf("q%d\ny.h\n\".i", k), fmt.Sprintf("q%d\ny.h\ny.i", k)}
+	default:
+		return []string{"s\nx.a\n\".b\n\".c", "s\nx.a\nx.b\n\".c"}
+	}
+}
+
 // NameInBucket returns a short name that the format hashes to bucket b.
 func NameInBucket(r *Rand, b uint32) string {
 	base := NameOfLen(r, 1+r.Intn(6))
